@@ -9,7 +9,8 @@
                    log.Fatalf = process exit, log.Panicf = Go panic, fuel, outside the model).
    * [run]         interprets a program on the in-memory file system model [fs] (kyaml fsNode
                    semantics, including its quirks), with [fault : option nat] failing the i-th
-                   FALLIBLE effect (those that return an error in Go) without touching the state,
+                   file-system CALL without touching the state (a call that returns an error
+                   returns one; Exists, which cannot, answers false),
                    and records the trace of effects (op, path, ok).
    * [chooser]     resolves Go's randomised map iteration (localizeNativeFields ranges over a map of
                    five fields, localizeBuiltinPlugins over a map of three): an arbitrary function of
@@ -191,7 +192,6 @@ Fixpoint walk_list (fuel : nat) (s : fs) (q : cpath) : list (string * bool) :=
 
 Inductive eff :=
 | EExists (p : string)
-| EIsDir (p : string)
 | EMkdir (p : string)
 | EMkdirAll (p : string)
 | ECleanedAbs (p : string)
@@ -254,23 +254,29 @@ Definition op_bool (e : eff) : prog bool :=
 (* ------------------------------------------------------------------ interpreter *)
 
 Inductive opcode :=
-  OExists | OIsDir | OMkdir | OMkdirAll | OCleanedAbs | OReadFile | OWriteFile | ORemoveAll | OWalk.
+  OExists | OMkdir | OMkdirAll | OCleanedAbs | OReadFile | OWriteFile | ORemoveAll | OWalk.
 
 Record event := mkEv { ev_op : opcode; ev_path : string; ev_ok : bool }.
 
+(* every file-system CALL is a fault point (the pseudo effect Choose is not a call) *)
 Definition fallible (e : eff) : bool :=
-  match e with EExists _ | EIsDir _ | EChoose _ => false | _ => true end.
+  match e with EChoose _ => false | _ => true end.
+
+(* what a failed call returns: an error — or, for the two calls that cannot report one
+   (Exists: a failed stat reads as "no"), false *)
+Definition fail_res (e : eff) : eres :=
+  match e with EExists _ => RBool false | _ => RFail end.
 
 Definition eff_op (e : eff) : opcode :=
   match e with
-  | EExists _ => OExists | EIsDir _ => OIsDir | EMkdir _ => OMkdir | EMkdirAll _ => OMkdirAll
+  | EExists _ => OExists | EMkdir _ => OMkdir | EMkdirAll _ => OMkdirAll
   | ECleanedAbs _ => OCleanedAbs | EReadFile _ => OReadFile | EWriteFile _ _ => OWriteFile
   | ERemoveAll _ => ORemoveAll | EWalk _ => OWalk | EChoose _ => OExists
   end.
 
 Definition eff_path (e : eff) : string :=
   match e with
-  | EExists p | EIsDir p | EMkdir p | EMkdirAll p | ECleanedAbs p | EReadFile p
+  | EExists p | EMkdir p | EMkdirAll p | ECleanedAbs p | EReadFile p
   | EWriteFile p _ | ERemoveAll p | EWalk p => p
   | EChoose _ => ""
   end.
@@ -283,8 +289,6 @@ Definition exec (e : eff) (s : fs) : fs * eres :=
   match e with
   | EExists p =>
       (s, RBool match fs_find s p with FRoot | FNode _ _ => true | _ => false end)
-  | EIsDir p =>
-      (s, RBool match fs_find s p with FRoot | FNode _ EDir => true | _ => false end)
   | EMkdir p | EMkdirAll p =>
       match fs_mkdir s p with Some s' => (s', RUnit) | None => (s, RFail) end
   | ECleanedAbs p =>
@@ -329,7 +333,7 @@ Definition fault_hit (fault : option nat) (n : nat) : bool :=
 
 Definition step_world (fault : option nat) (e : eff) (w : world) : world * eres :=
   let hit := fallible e && fault_hit fault (w_n w) in
-  let '(s', r) := if hit then (w_fs w, RFail) else exec e (w_fs w) in
+  let '(s', r) := if hit then (w_fs w, fail_res e) else exec e (w_fs w) in
   (mkW s' (if fallible e then S (w_n w) else w_n w)
        (mkEv (eff_op e) (eff_path e) (res_ok r) :: w_trace w), r).
 
